@@ -5,7 +5,8 @@ For each seed: copy /repo/cassandra, apply the patch to the copy, run ./check <p
 misses) with VERIF_REPO pointing at the copy and the evidence redirected, and record what happened in
 seeded/RESULTS.json (+ lead_verification.status_now / detected_by in the seed's meta.json).  /repo is never touched.
 
-usage: tools/seed_all.py [-j N] [--thorough-on-miss] [seed-dir-name ...]
+usage: tools/seed_all.py [-j N] [--thorough-on-miss] [--benign] [seed-dir-name ...]
+With --benign the directory is benign/ (behaviour-preserving refactorings): a check that exits non-zero is a FALSE ALARM.
 """
 import concurrent.futures as cf
 import json
@@ -18,7 +19,10 @@ import tempfile
 import time
 
 VERIF = os.path.dirname(os.path.dirname(os.path.abspath(__file__)))
-SEEDED = os.path.join(VERIF, "seeded")
+BENIGN = "--benign" in sys.argv          # behaviour-preserving changes (benign/<id>/): every check must stay quiet
+if BENIGN:
+    sys.argv.remove("--benign")
+SEEDED = os.path.join(VERIF, "benign" if BENIGN else "seeded")
 
 
 def run_seed(name, thorough_on_miss):
@@ -61,7 +65,7 @@ def run_seed(name, thorough_on_miss):
                 out["runs"].append({"check": cid, "tier": tier, "rc": rc, "violations": len(vio), "first": what,
                                     "wall": round(time.time() - t0, 1),
                                     "tail": text.strip().splitlines()[-1][:200] if rc not in (0, 1) and text.strip() else ""})
-                if rc == 1 and vio:
+                if (rc == 1 and vio) or (BENIGN and rc != 0):
                     caught = True
             if caught:
                 break
@@ -93,7 +97,7 @@ def main():
             r = f.result()
             n = r["seed"]
             caught = sorted({"%s%s" % (x["check"], "" if x["tier"] == "quick" else " (thorough)")
-                             for x in r["runs"] if x["rc"] == 1 and x["violations"]})
+                             for x in r["runs"] if (x["rc"] == 1 and x["violations"]) or (BENIGN and x["rc"] != 0)})
             r["caught_by"] = caught
             r["when"] = time.strftime("%Y-%m-%dT%H:%M:%S")
             r["repo_head"] = subprocess.check_output(["git", "-C", "/repo", "log", "--format=%h", "-1"], text=True).strip()
@@ -107,7 +111,10 @@ def main():
             if r.get("applies"):
                 lv["detected_by"] = caught
                 first = next((x["first"] for x in r["runs"] if x["rc"] == 1 and x["violations"]), "")
-                if caught:
+                if BENIGN:
+                    lv["status_last_run"] = ("FALSE ALARM (%s): %s" % (r["when"], [(x["check"], x["tier"], x["rc"], x["first"] or x["tail"]) for x in r["runs"] if x["rc"]])
+                                             if caught else "quiet (%s): %s" % (r["when"], [(x["check"], x["tier"]) for x in r["runs"]]))
+                elif caught:
                     lv["status_last_run"] = "caught (%s): %s" % (r["when"], first)
                 else:
                     lv["status_last_run"] = "MISSED (%s): %s" % (r["when"], [(x["check"], x["tier"], x["rc"]) for x in r["runs"]])
